@@ -73,6 +73,14 @@ FAULTS = ['none', 'requested', 'eof', 'reset', 'timeout', 'write_error', 'stop']
 LOSS_FAULTS = ('requested', 'eof', 'reset', 'timeout', 'write_error')
 RECONNECT_FAULTS = ('reset', 'timeout', 'write_error')
 P2_WHEN = ['end', 'loss', 'reconnecting', 'relogin']
+TIMED_POINTS = ('idle', 'transfer', 'search', 'parent')
+# who performs the write that meets the blocked / failing transport: a user command, the periodic server ping, the
+# periodic wishlist job (WishlistInterval sent by the server, one wishlist item configured), a queued message
+WRITERS = ['command', 'ping', 'wishlist', 'queued']
+OUTAGE_MODES = ['refuse', 'hang', 'reset']      # server behaviour during the first k reconnect attempts
+PING_INTERVAL = 300.0                           # aioslsk.constants.SERVER_PING_INTERVAL
+WISHLIST_INTERVAL = 2
+CONNECT_TIMEOUT = 30.0                          # aioslsk.constants.SERVER_CONNECT_TIMEOUT
 CLEAR_PORT, OBF_PORT = 60000, 60001
 HORIZON = 1000.0
 RELOGIN_WINDOW = 25.0
@@ -151,12 +159,25 @@ def _sanitise(case):
         dt = _clamp_int(p2.get('ms', 50), 0, 8000, 50) / 1000.0
     if when == 'relogin':
         k2 = _clamp_int(p2.get('k', 0), 0, 40, 0)
+    writer = p1.get('writer') if p1.get('writer') in WRITERS else 'command'
+    if fault not in ('timeout', 'write_error') or point not in TIMED_POINTS:
+        writer = 'command'
+    outage = c.get('outage') if isinstance(c.get('outage'), dict) else {}
+    ok = _clamp_int(outage.get('k', 0), 0, 3, 0)
+    omode = outage.get('mode') if outage.get('mode') in OUTAGE_MODES else 'refuse'
+    if not (cfg['reconnect'] and fault in RECONNECT_FAULTS and login == 'accept' and point in TIMED_POINTS):
+        ok = 0
+    if ok == 0:
+        omode = None
     return {'cfg': cfg, 'login': login, 'point': point, 'var': var, 'k': k, 'fault': fault,
-            'when': when, 'dt': dt, 'k2': k2}
+            'when': when, 'dt': dt, 'k2': k2, 'writer': writer, 'ok': ok, 'omode': omode}
 
 
-def _doc(cfg, login='accept', point='idle', fault='none', k=1, var=None, when='end', ms=50, k2=0):
+def _doc(cfg, login='accept', point='idle', fault='none', k=1, var=None, when='end', ms=50, k2=0, writer=None,
+         outage=None):
     p1 = {'point': point}
+    if writer and writer != 'command':
+        p1['writer'] = writer
     if point == 'burst':
         p1['k'] = k
     if var:
@@ -166,7 +187,10 @@ def _doc(cfg, login='accept', point='idle', fault='none', k=1, var=None, when='e
         p2['ms'] = ms
     if when == 'relogin':
         p2['k'] = k2
-    return {'cfg': dict(cfg), 'login': login, 'p1': p1, 'fault': fault, 'p2': p2}
+    doc = {'cfg': dict(cfg), 'login': login, 'p1': p1, 'fault': fault, 'p2': p2}
+    if outage and outage[0] > 0:
+        doc['outage'] = {'k': outage[0], 'mode': outage[1]}
+    return doc
 
 
 @st.composite
@@ -209,9 +233,11 @@ def case_strategy(draw, favs=True):
     fault = draw(st.sampled_from(['reset', 'reset', 'timeout', 'write_error', 'write_error', 'eof', 'requested']))
     when = draw(st.sampled_from(['end', 'end', 'loss', 'loss', 'reconnecting', 'relogin', 'relogin']))
     rt = cfg['rtimeout'] * 1000
+    writer = draw(st.sampled_from(WRITERS))
+    outage = (draw(st.sampled_from([0, 0, 1, 1, 2, 3])), draw(st.sampled_from(OUTAGE_MODES)))
     return _doc(cfg, 'accept', point, fault, k=k, var=var, when=when,
                 ms=draw(st.sampled_from([0, 1, 50, 300, 700, rt - 100, rt + 100, rt + 400, rt + 600, rt + 900])),
-                k2=draw(st.integers(0, 20)))
+                k2=draw(st.integers(0, 20)), writer=writer, outage=outage)
 
 
 # ---------------------------------------------------------------------------
@@ -451,6 +477,9 @@ def _run(c, tmp, res):
 
         # -- environment ---------------------------------------------------
         settings = _build_settings(cfg, tmp)
+        if c['writer'] == 'wishlist':
+            from aioslsk.settings import WishlistSettingEntry
+            settings.searches.wishlist = [WishlistSettingEntry(query='wished item')]
         if cfg['clear'] == 'fail':
             world.net.bind_fail.add(CLEAR_PORT)
         if cfg['obf'] == 'fail':
@@ -459,11 +488,28 @@ def _run(c, tmp, res):
         attempts = []           # (time, host, port): every outgoing connect the client starts
         orig_open = conn_mod.asyncio.open_connection
 
+        reconnects = []         # per connect to the server started after the fault: {'t', 'done', 'ok'}
+
         async def open_connection(host=None, port=None, **kw):
             attempts.append((loop.time(), host, port, _origin(asyncio.current_task())))
-            return await orig_open(host, port, **kw)
+            rec = None
+            if (host, port) == (simworld.SERVER_HOST, simworld.SERVER_PORT) and 't' in fault_info:
+                rec = {'t': loop.time(), 'done': None, 'ok': False}
+                reconnects.append(rec)
+                # the server is unreachable for the first c['ok'] reconnect attempts
+                world.server.listener.outcome = c['omode'] if len(reconnects) <= c['ok'] else 'accept'
+            try:
+                result = await orig_open(host, port, **kw)
+                if rec is not None:
+                    rec['ok'] = world.server.listener.outcome == 'accept'
+                return result
+            finally:
+                if rec is not None:
+                    rec['done'] = loop.time()
+                    trace.append((round(loop.time(), 4), 'reconnect attempt', len(reconnects), 'ok' if rec['ok'] else 'failed'))
         conn_mod.asyncio.open_connection = open_connection
 
+        fault_info = {}
         sess = []               # per server session: {'link', 'writes'}
         triggers = []           # {'key', 'fn', 'done'}
 
@@ -559,8 +605,6 @@ def _run(c, tmp, res):
             stop_info['t_call'] = loop.time()
             stop_info['task'] = own(loop.create_task(do_stop()))
 
-        fault_info = {}
-
         def direct_eof(link):
             ep, tr = link.sides[1], link.sides[0]
             ep.closed = True
@@ -570,6 +614,7 @@ def _run(c, tmp, res):
         def inject(direct):
             fault_info['t'] = loop.time()
             fault_info['closed_before'] = n_state['CLOSED']
+            fault_info['closing_before'] = n_state['CLOSING']
             trace.append((round(loop.time(), 4), 'inject', fault, 'direct' if direct else 'server-side'))
             if fault == 'stop':
                 start_stop('p1:' + point)
@@ -668,7 +713,9 @@ def _run(c, tmp, res):
         elif c['when'] == 'reconnecting':
             on_trigger(('state', 'CONNECTING', 2), lambda: start_stop('reconnecting'))
         elif c['when'] == 'relogin':
-            on_trigger(('frames', 1, c['k2']), lambda: start_stop('relogin-k%d' % c['k2']))
+            # the session of the first reconnect attempt that is allowed to succeed
+            on_trigger(('frames', 1 + (c['ok'] if c['omode'] == 'reset' else 0), c['k2']),
+                       lambda: start_stop('relogin-k%d' % c['k2']))
 
         def arm_p2():
             if c['when'] == 'loss':
@@ -740,6 +787,8 @@ def _run(c, tmp, res):
                                           rooms_private_user_count=[], rooms_private_operated=[]),
                       M.UserJoinedRoom.Response('pub', 'u1', 2, UserStats(10, 1, 5, 2), 1, 'BE')):
                 srv.send(m)
+            if c['writer'] == 'wishlist':
+                srv.send(M.WishlistInterval.Response(WISHLIST_INTERVAL))
             await asyncio.sleep(0.2)
             dn = client.distributed_network
             populated = bool(client.users.users) and bool(client.rooms.rooms) and dn.parent_min_speed is not None
@@ -784,7 +833,12 @@ def _run(c, tmp, res):
                 and n_state['CLOSED'] == fault_info.get('closed_before', 0):
             await asyncio.sleep(0.01)
             if n_state['CLOSED'] == fault_info.get('closed_before', 0) and client.session is not None:
-                own(loop.create_task(guard(client.execute(GetUserStatusCommand('zz')))))
+                if c['writer'] == 'command':
+                    own(loop.create_task(guard(client.execute(GetUserStatusCommand('zz')))))
+                elif c['writer'] == 'queued':
+                    client.network.queue_server_messages(M.Ping.Request())
+                # 'ping' / 'wishlist': the periodic job of the library performs the write
+                res.label('writer:' + c['writer'])
 
         # -- the initial burst ---------------------------------------------------
         if login_mode == 'accept' and world.server.received(M.Login.Request, session=0):
@@ -802,15 +856,30 @@ def _run(c, tmp, res):
         t_loss = None
         if fault in LOSS_FAULTS and fault_fired:
             base = fault_info.get('closed_before', 0)
+            base_closing = fault_info.get('closing_before', 0)
+            # the periodic writers take their time: the ping job runs every 300 s, a blocked write times out after 10 s
+            detect = {'ping': PING_INTERVAL + 15.0, 'wishlist': WISHLIST_INTERVAL + 15.0}.get(c['writer'], 15.0)
             try:
-                await asyncio.wait_for(_wait_closed(n_state, base, loop), 15.0)
+                await asyncio.wait_for(_wait_state(n_state, 'CLOSING', base_closing, 0.5 if detect > 100 else 0.05),
+                                       detect)
+                # disconnect() waits at most DISCONNECT_TIMEOUT = 5 s for the transport
+                await asyncio.wait_for(_wait_state(n_state, 'CLOSED', base), 8.0)
             except asyncio.TimeoutError:
                 pass
             closed_after = [s for s in states if s[1] == 'CLOSED'][base:]
+            closing_after = [s for s in states if s[1] == 'CLOSING'][base_closing:]
             if closed_after:
                 lost = True
                 t_loss = closed_after[0][0]
                 res.label('loss-reason:' + closed_after[0][2])
+            elif closing_after and not stopping():
+                # the client noticed the loss (CLOSING) but the close never completed
+                violate(f'C16/loss-not-completed:{closing_after[0][2]}',
+                        f'server connection CLOSING ({closing_after[0][2]}) at {closing_after[0][0]:.3f} (loss noticed by '
+                        f'the write of: {c["writer"]}) but no CLOSED within 8 s; connection state '
+                        f'{client.network.server_connection.state.name}, sessions initialised {len(inits)} / destroyed '
+                        f'{len(destroys)}, client.session is {"set" if client.session else "None"}')
+                flags['contaminated'] = 'loss-not-completed'
             elif login_mode == 'accept' or point != 'prelogin':
                 res.label('loss-not-detected')
         if lost and not stopping():
@@ -847,11 +916,31 @@ def _run(c, tmp, res):
                                                            f'after the loss at {t_loss:.3f}')
             if after:
                 res.label('reconnected')
-            if expect and after and not stopping():
+            reachable = True
+            if expect and after and c['ok'] > 0 and not stopping():
+                # the first c['ok'] attempts fail (refused / connect timeout / reset right after the accept); every
+                # further attempt is due one watchdog round (poll 0.5 s + reconnect.timeout) after the previous failed
+                cost = {'hang': CONNECT_TIMEOUT, 'refuse': 0.0, 'reset': 0.2}[c['omode']]
+                give_up = t_loss + (c['ok'] + 1) * (cfg['rtimeout'] + 1.0 + cost) + 1.0
+                while loop.time() < give_up and not stopping() and not (
+                        len(reconnects) > c['ok'] and reconnects[c['ok']]['done'] is not None):
+                    await asyncio.sleep(0.05)
+                res.label('outage:%s:%d' % (c['omode'], c['ok']))
+                if not stopping() or stop_info['t_call'] > give_up:
+                    if len(reconnects) <= c['ok'] or not reconnects[c['ok']]['ok']:
+                        reachable = False
+                        done = [round(r['done'], 3) for r in reconnects if r['done'] is not None]
+                        violate(f'C16/no-reconnect-after-failed-attempt:{c["omode"]}',
+                                f'the server was unreachable ({c["omode"]}) for the first {c["ok"]} reconnect attempt(s) '
+                                f'after the loss at {t_loss:.3f} and reachable afterwards: {len(reconnects)} attempt(s) '
+                                f'made (finished at {done}), no connection by {give_up:.3f} = loss + (k+1) x '
+                                f'(reconnect.timeout {cfg["rtimeout"]} s + 1 s + attempt) + 1 s')
+            if expect and after and reachable and not stopping():
                 # automatic re-login and its burst
                 await asyncio.sleep(0.3)
+                relogin_idx = len(world.server.sessions) - 1
                 if not stopping() and not check_deadlock('after the reconnect'):
-                    logins2 = world.server.received(M.Login.Request, session=1)
+                    logins2 = world.server.received(M.Login.Request, session=relogin_idx)
                     if not logins2:
                         violate(f'C16/no-login-after-reconnect:{fault}', 'the client reconnected but sent no Login')
                     elif login_mode == 'accept':
@@ -860,7 +949,7 @@ def _run(c, tmp, res):
                         want = _expected_frames(cfg)
                         t_give_up = loop.time() + RELOGIN_WINDOW
                         while loop.time() < t_give_up and not stopping():
-                            got = collections.Counter(_frame_key(m) for m in session_frames(1, float('inf')))
+                            got = collections.Counter(_frame_key(m) for m in session_frames(relogin_idx, float('inf')))
                             if all(got.get(k, 0) >= n for k, n in want.items()):
                                 break
                             await asyncio.sleep(0.5)
@@ -873,10 +962,10 @@ def _run(c, tmp, res):
                                 tol[('AddUser', (u,))] = 1
                             # extra: what arrived with the burst; missing: what has not arrived after 25 s
                             t_login2 = min(t for t, i, m in world.server.frames
-                                           if i == 1 and isinstance(m, M.Login.Request))
-                            _compare_frames(session_frames(1, t_login2 + 0.3), cfg, False, tol, tol_classes,
+                                           if i == relogin_idx and isinstance(m, M.Login.Request))
+                            _compare_frames(session_frames(relogin_idx, t_login2 + 0.3), cfg, False, tol, tol_classes,
                                             're-login', violate)
-                            late_ok = collections.Counter(_frame_key(m) for m in session_frames(1, float('inf')))
+                            late_ok = collections.Counter(_frame_key(m) for m in session_frames(relogin_idx, float('inf')))
                             for key, n in sorted(want.items(), key=repr):
                                 if late_ok.get(key, 0) < n:
                                     violate(f'C16/post-login-missing:{key[0]}',
@@ -988,9 +1077,9 @@ def _run(c, tmp, res):
             print('   ', line)
 
 
-async def _wait_closed(n_state, base, loop):
-    while n_state['CLOSED'] <= base:
-        await asyncio.sleep(0.05)
+async def _wait_state(n_state, name, base, poll=0.05):
+    while n_state[name] <= base:
+        await asyncio.sleep(poll)
 
 
 # ---------------------------------------------------------------------------
@@ -1054,6 +1143,22 @@ def enumerated_cases(tier):
                 for point in ('prelogin', 'pending', 'idle'):
                     for fault in ('none', 'stop', 'reset', 'eof'):
                         out.append(_doc(cfg, login, point, fault, when='end'))
+            # the loss is noticed by the write of a task that the CLOSING handlers cancel: periodic ping job, periodic
+            # wishlist job, queued message
+            for point in ('idle', 'search'):
+                for fault in ('write_error', 'timeout'):
+                    for writer in ('ping', 'wishlist', 'queued'):
+                        for when, ms in (('end', 0), ('loss', 50)):
+                            out.append(_doc(cfg, 'accept', point, fault, when=when, ms=ms, writer=writer))
+        # the server is unreachable for the first k reconnect attempts and reachable afterwards
+        cfg = dict(cfg0, reconnect=True)
+        ks_out = (1, 2, 3) if tier == 'thorough' else (1, 2)
+        for fault, writer in (('reset', None), ('write_error', 'queued'), ('timeout', 'command')):
+            for k in ks_out:
+                for mode in OUTAGE_MODES:
+                    for when, ms, k2 in (('end', 0, 0), ('relogin', 0, 4), ('loss', rt + 700, 0), ('reconnecting', 0, 0)):
+                        out.append(_doc(cfg, 'accept', 'idle', fault, when=when, ms=ms, k2=k2, writer=writer,
+                                        outage=(k, mode)))
     return out
 
 
